@@ -775,7 +775,10 @@ def overlap_add(blk_sig, size=None, hop=None, wnd=None, normalize=True):
   # Finds the size from data, if needed
   if size is None:
     blk_sig = Stream(blk_sig)
-    size = len(blk_sig.peek())
+    try:
+      size = len(blk_sig.peek())
+    except StopIteration: # No block at all: there's nothing to overlap-add
+      return
   if hop is None:
     hop = size
 
@@ -819,7 +822,10 @@ def overlap_add(blk_sig, size=None, hop=None, wnd=None, normalize=True):
   # Finds the size from data, if needed
   if size is None:
     blk_sig = Stream(blk_sig)
-    size = len(blk_sig.peek())
+    try:
+      size = len(blk_sig.peek())
+    except StopIteration: # No block at all: there's nothing to overlap-add
+      return
   if hop is None:
     hop = size
 
